@@ -207,7 +207,7 @@ func (g *Gen) wrap(ev world.Event) world.Event {
 	if g.chance("p:fault") {
 		kind := []int{world.DepTrieWrite, world.DepLoadAccount, world.DepSaveAccount, world.DepMarshal, world.DepUnmarshal, world.DepIsPayable}[g.R.Intn(6)]
 		ev.Fault = []int{kind, 1 + g.R.Intn(3)}
-		if (kind == world.DepLoadAccount || kind == world.DepIsPayable) && g.R.Intn(3) == 0 {
+		if (kind == world.DepLoadAccount || kind == world.DepIsPayable || kind == world.DepUnmarshal) && g.R.Intn(3) == 0 {
 			ev.Fault = append(ev.Fault, 1)
 		}
 	}
